@@ -209,7 +209,7 @@ def build_request(h, target, tb, r, nports_of):
         mod = tb[kind][req["key"]]
         nports = len(mod.port_list)
         model = req["key"] if not req.get("bogus") else "NO_SUCH_MODEL"
-        expect = {"kind": kind, "table": kind, "model": req["key"], "bogus": bool(req.get("bogus"))}
+        expect = {"kind": kind, "table": kind, "model": req["key"], "bogus": bool(req.get("bogus")), "given_wl": {"w": req.get("w"), "l": req.get("l")}}
         kw = {"model": model}
         if kind == "res":
             prim = h.primitives.ThreeTerminalResistor if nports == 3 else h.primitives.PhysicalResistor
@@ -490,6 +490,7 @@ def check_compile(h, scn, mods, expects, before, after, pdkname, repeat, fail, p
             given = exp.get("given", {})
             if exp["kind"] == "mos" and given:
                 _check_sizes(h, new_of, given, mid, iname, fail, probe)
+            _check_defaults(h, pdkname, new_of, exp, mid, iname, fail, probe)
             # equal primitive parameters -> the same device call
             key = (type(old_of.params).__name__, old_of.params)
             try:
@@ -519,6 +520,33 @@ def _check_sizes(h, call, given, mid, iname, fail, probe):
             fail("given-size-ignored", f"PM{mid}.{iname}: {field}={want}{'u' if scale else ''} requested, device has {field}={haves}")
             return
         probe("given_value_used:" + field)
+
+
+def _check_defaults(h, pdkname, call, exp, mid, iname, fail, probe):
+    """A size the request leaves out is the PDK's default for the selected device (read from the
+    PDK's own default-size table, independently of the walker)."""
+    if pdkname not in ("sky130", "gf180"):
+        return
+    m = pdk_module(pdkname)
+    tables_ = {"mos": ["default_xtor_size"], "res": ["default_gen_res_size", "default_res_size"], "cap": ["default_cap_sizes"], "diode": ["default_diode_size"]}
+    given = exp.get("given") or exp.get("given_wl") or {}
+    p = call.params
+    get = (lambda n: p.get(n)) if isinstance(p, dict) else (lambda n: getattr(p, n, None))
+    for tname in tables_.get(exp["kind"], []):
+        table = getattr(m, tname, None)
+        if not table or call.module.name not in table:
+            continue
+        dw, dl = table[call.module.name][0], table[call.module.name][1]
+        for field, names, dflt in (("w", ("w", "r_width", "c_width"), dw), ("l", ("l", "r_length", "c_length"), dl)):
+            if given.get(field) is not None:
+                continue
+            haves = [get(n) for n in names if get(n) is not None]
+            if not haves:
+                continue
+            if not any(_same_value(h, hv, dflt) for hv in haves):
+                fail("default-size-wrong", f"PM{mid}.{iname}: {field} not given, device {call.module.name} got {field}={haves}, the PDK default is {dflt}")
+                return
+            probe("default_size_checked:" + exp["kind"])
 
 
 def _same_value(h, a, b):
